@@ -40,12 +40,12 @@ LEVEL.update({
             "filesystem overload of TokenScanner is known finding F4; per-call cost and wall-clock are outside the model (watchdog)"),
     "C03": ("Node-level theorems (field rules of every node kind, description joining and trimming characterised uniquely, children kept in insertion = source order, crashes only when a needed token/field is missing) and the whole-document composition over token trees: the builder's stack machine computes exactly the structural recursion astOf of the tree (error paths included), and for grammar-shaped trees (shape derived from ValidTree of the regenerated grammar by a kernel-checked fact) the element locations of the AST in source order equal the element-carrying leaves of the tree in order: every element once, nothing else. Tie: complete ASTs (minus locations/ids) of generated and corpus documents vs the model.",
             "C03_parse_is_astOf links every accepted imperative parse to its token tree; C03_roundtrip (generated models) not proved"),
-    "C11": ("Theorems: C11_pickle_ids (compiler draws consecutive ids, steps then pickle), builder node-level id theorems, and C11_ast_ids_canonical: for every grammar-shaped token tree the ids of the document, traversed in the canonical order of the property, are exactly n, n+1, ... (distinct, dense, canonical); C15_id_offset gives the shared-generator case. Tie/oracle: all ids vs the model; independent oracle on the implementation (distinct, 0..N-1, references resolve to nodes of the right kind); several sources through one stream.",
+    "C11": ("Theorems: C11_pickle_ids (compiler draws consecutive ids, steps then pickle), builder node-level id theorems, and C11_ast_ids_canonical: for every grammar-shaped token tree the ids of the document, traversed in the canonical order of the property, are exactly n, n+1, ... (distinct, dense, canonical); C15_id_offset gives the shared-generator case. Tie/oracle: all ids vs the model; independent oracle on the implementation (distinct, 0..N-1, references resolve to nodes of the right kind); several sources through one stream. Whole pipeline (Props/C11Pipeline): C11_pipeline_ids (AST ids in canonical order then pickle ids = ids..n'-1 for every accepted document, compile total), C11_refs_resolve (every id a pickle mentions is the id of exactly one AST node of the right kind), C11_stream_ids (ids shown by a stream strictly increasing and pairwise distinct for any mix of accepted and rejected sources; dense when all sources are accepted and all options on).",
             "C11_parse_ids_canonical states it for the document of every accepted parse"),
     "C15": ("Theorems: the matcher state stays consistent through every parse (invariant), reset makes a parse independent of everything the matcher was used for before (C15_used_equals_fresh for any history), the builder/queue/errors are fresh per parse, ids shift uniformly with the counter (parser, compiler, stream), generic frame lemma for arbitrary schedules and its instance for the parse loop, determinism. Tie (carries the weight for heap effects): all ordered pairs/triples of state-perturbing documents through one Parser+TokenMatcher vs fresh instances, one shared Compiler/TokenMatcher through long document sequences, random schedules of concurrent parses gated at every token read (with and without an explicit matcher).",
             "heap aliasing and preemption inside a match call cannot be exhibited by a functional model"),
     "C16": ("Per-line invariance theorems of the matcher model for the token it actually sees (CRLF for all 14 kinds, final newline, trailing blanks, indentation shifting only columns / tag-error column / the doc string's indent) under kernel-checked dialect facts and a proved separator invariant; kind-level whole-run theorems, generic in the table under kernel-checked facts: an inserted blank line adds exactly one build Empty, a comment before a structural line adds exactly one build Comment. Whole documents, both error modes, on the imperative model (lock-step simulation of two runs): C16_crlf_document, C16_final_newline_document, C16_trailing_blanks_document (outcome - document or exact error list - and final context equal). C16_blank_line_document / C16_indent_document: the outcome of the text with a blank line inserted outside descriptions and doc strings / with keyword, step, tag, row lines indented further is exactly the renamed outcome of the original (line numbers after the insertion point +1 / columns of moved lines +w), accepted or rejected, both modes. Tie: metamorphic pairs on the implementation (LF/CRLF, final newline, trailing blanks, indentation, doc-string block indentation, blank line, comment line) at sampled admissible positions; file loading incl. BOM and long paths; theorem-driven: the driver evaluates the theorems' hypotheses (op layoutok) and the implementation must give exactly the renamed outcome wherever they hold.",
-            "whole-document composition for comment-line insertion and for a doc string moving as one block is by the tie; trailing blanks after a step line that is a keyword prefix is known finding F8 (the theorem carries the hypothesis StepTailFree)"),
+            "C16_comment_line_document covers the states where a comment is built and the state stays (not the eight states directly after a keyword line, where it opens a Description) and C16_indent_closing_delimiter_document the closing delimiter; a doc string moving as one block is by the tie; trailing blanks after a step line that is a keyword prefix is known finding F8 (the theorem carries the hypothesis StepTailFree)"),
     "C17": ("Theorems: exact envelope list and counter for all 8 option combinations (accepted and rejected sources), source/uri/parseError fields, every envelope's JSON satisfies the written-out Cucumber Messages shape (Spec.wellShaped) incl. compiler output never having a Conjunction step type, locality and order of sources. Tie/oracle: sequences of sources x options vs the model, json round trip, shape validator, SourceEvents on files with CRLF/CR/BOM.",
             "json.dumps is trusted"),
     "C18": ("Theorems: C18_reads_in_order (the main loop reads the tokens of lines 1,2,3,... in order however often look-ahead moved them through the queue) and C18_accepted_sequence (for an accepted document the builder receives exactly one token per physical line, in order, with that line's text and number, then one EOF) from matcher determinism, dialect facts and kernel-checked queue facts of the regenerated table; partition (every token read is built xor reported unexpected); look-ahead conserves the queue. Tie: built tokens and line numbers vs the model; all tag/comment/blank runs <= L and long runs through the look-ahead queue; one Parser reused; corpus token listings.",
